@@ -110,7 +110,10 @@ def c19_scenarios(ctx, abstract, tier):
         variants = range(len(GITIGNORES)) if (a["gitignore"] and "init" in a["flags"]) else ([0] if tier == "quick" else [0, 1])
         for var in variants:
             files = [{"p": "proj/", "dir": True}, {"p": "proj/sub/deep/", "dir": True}, {"p": "proj/a.txt", "c": "a\n"}, {"p": "proj/sub/b.txt", "c": "b\n"},
-                     {"p": "proj/sub/deep/keep.md", "c": "keep\n"}, {"p": "other/x.txt", "c": "x\n"}]
+                     {"p": "proj/sub/deep/keep.md", "c": "keep\n"}, {"p": "other/x.txt", "c": "x\n"},
+                     # neighbours a careless rewrite could use as scratch or backup names
+                     {"p": "proj/spokfile.tmp", "c": "mine\n"}, {"p": "proj/spokfile.bak", "c": "mine\n"}, {"p": "proj/.spokfile.swp", "c": "mine\n"},
+                     {"p": "proj/spokfile~", "c": "mine\n"}, {"p": "proj/spokfile.new", "c": "mine\n"}, {"p": "proj/.gitignore.tmp", "c": "mine\n"}]
             if a["kind"] != "missing":
                 files.append({"p": "proj/spokfile", "c": KIND_TEXT[a["kind"]]})
             if a["gitignore"]:
